@@ -380,6 +380,9 @@ class FX:
                     ci = ev["ci"]
                     if ci.local_callee:
                         edges[f.key].add(ci.local_callee)
+                    else:
+                        for cbk in self.callbacks(f, ev["bb"]):
+                            edges[f.key].add(cbk)
                     for c in ci.closures:
                         if c in self.prog.fns:
                             edges[f.key].add(c)
@@ -403,6 +406,49 @@ class FX:
         self._eff = eff
         self.edges = edges
         return eff
+
+    def callbacks(self, f, bb):
+        """crate trait-impl methods a FOREIGN generic callee may call back: the callee is instantiated with a crate type P (at any
+        depth of its generic arguments) and one of its own bounds names a foreign trait that P implements in this crate
+        (`collect::<_, Result<Store, E>>` with `B: FromIterator` -> `<Store as FromIterator>::from_iter`)"""
+        t = f.term(bb)
+        fu = t.get("func") if isinstance(t, dict) else None
+        if not fu or fu.get("local"):
+            return ()
+        crate = self.prog.j.get("crate")
+        paths = set()
+
+        def scan(ty):
+            if not isinstance(ty, dict):
+                return
+            if ty.get("k") == "adt" and ty.get("krate") == crate and ty.get("path"):
+                paths.add(ty["path"])
+            for a in ty.get("args") or []:
+                scan(a)
+            for a in ty.get("elems") or []:
+                scan(a)
+            if ty.get("inner"):
+                scan(ty["inner"])
+        for g in fu.get("gargs") or []:
+            scan(g)
+        scan(fu.get("self_ty"))
+        if not paths:
+            return ()
+        traits = {p.get("trait") for p in fu.get("preds") or [] if p.get("kind") == "trait"}
+        traits.discard(None)
+        if fu.get("trait"):
+            traits.add(fu["trait"])
+        out = set()
+        for im in self.prog.impls:
+            tr = im.get("trait")
+            if not tr or tr not in traits or im.get("auto_derived"):
+                continue
+            sd = (im.get("self") or {}).get("path") or (im.get("self_desc") or "").split("<")[0]
+            if sd in paths:
+                for it in im.get("items", []):
+                    if it.get("key") in self.prog.fns and it["key"] != f.key:
+                        out.add(it["key"])
+        return sorted(out)
 
     def reach(self, key):
         """crate functions reachable from `key` through crate calls and passed closures (incl. key)"""
